@@ -320,11 +320,8 @@ def r08e(ctx):
             ok = bool(le) and all(sb is not None and pa.cfg.must_pass(sb, via_edges=le) for (sb, _, e) in srcs if isp(e))
     ctx.check(ok, 'R08e', pa.path, 'min', '-', 'prealloc_num_chunks = min(declared, constant %s)' % (cap if ok else '?'))
     for nm in ('cas_object::cas_chunk_format::parse_chunk_header', 'cas_object::cas_chunk_format::deserialize_async::deserialize_chunk_header::{closure#0}'):
-        h = an(F.body(nm))
-        vs = h.calls('cas_object::cas_chunk_format::CASChunkHeader::validate')
-        oks = [(b, si) for (b, si, k, e) in h.ret_sites() if k != 'err']
-        se = [e for v in vs for e in success_edges(h, v)]
-        ctx.check(len(vs) == 1 and bool(se) and all(h.cfg.must_pass(b, via_edges=se) for (b, si) in oks), 'R08e', nm, 'validate', h.loc(vs[0]) if vs else '-', 'a header is returned only after CASChunkHeader::validate succeeded on it')
+        from .rules_c07 import returns_validated_headers
+        ctx.check(returns_validated_headers(F, nm), 'R08e', nm, 'validate', '-', 'a header is returned only after CASChunkHeader::validate succeeded on it')
     # advisory: outside the entry points
     ob = an(F.body(V1 + 'deserialize_only_boundaries_section'))
     for cb in ob.calls('alloc::vec::Vec::resize'):
